@@ -102,6 +102,7 @@ def _case(draw):
                            'mix_ratio_top': draw(_opt(f(-9, -5))), 'mix_ratio_P': draw(_opt(f(1.0, 4.0))),
                            'mix_ratio_smoothing': draw(_opt(st.integers(5, 40)))})
     c['ratio'] = draw(_opt(f(0.05, 0.4)))
+    c['fill'] = draw(st.sampled_from([['H2', 'He'], ['H2', 'He', 'NO'], ['N2', 'NO'], ['H2', 'He'], ['H2', 'He', 'N2', 'CO']]))
     c['mkeys'] = {'new_path_method': draw(_opt(st.booleans())), 'ngauss': draw(_opt(st.integers(1, 6)))}
     c['contribs'] = draw(st.lists(st.sampled_from(['CIA', 'Rayleigh', 'SimpleClouds', 'ThickClouds', 'FlatMie', 'LeeMie']), max_size=3, unique=True))
     c['ckeys'] = {'clouds_pressure': draw(_opt(f(1.0, 5.0))), 'flat_mix_ratio': draw(_opt(f(-28, -22))), 'flat_bottomP': draw(_opt(f(3.0, 5.0))),
@@ -317,11 +318,20 @@ def build_par(c, tmp, W):
     expect = {}
     lines = ['[Global]', 'xsec_path = %s' % os.path.join(tmp, 'xsec'), 'cia_path = %s' % os.path.join(tmp, 'cia'), '']
     # ---- chemistry
-    lines += ['[Chemistry]', 'chemistry_type = taurex', 'fill_gases = H2,He']
-    exp_chem = {'fill_gases': ['H2', 'He']}
-    if c['ratio'] is not None:
-        lines.append('ratio = %s' % num(c['ratio']))
-        exp_chem['ratio'] = c['ratio']
+    # fill-gas lists of names: a list of words stays a list of those words (NO is nitric oxide, not a boolean)
+    fill = c.get('fill') or ['H2', 'He']
+    lines += ['[Chemistry]', 'chemistry_type = taurex', 'fill_gases = %s' % ','.join(fill)]
+    exp_chem = {'fill_gases': list(fill)}
+    if c['ratio'] is not None or len(fill) != 2:
+        if c['ratio'] is None:
+            c = dict(c, ratio=0.25)             # one ratio per extra fill gas is required
+        if len(fill) == 2:
+            lines.append('ratio = %s' % num(c['ratio']))
+            exp_chem['ratio'] = c['ratio']
+        else:
+            rr = [c['ratio'] * (0.5 ** i) for i in range(len(fill) - 1)]
+            lines.append('ratio = %s' % ','.join(num(x) for x in rr))
+            exp_chem['ratio'] = rr
     expect['TaurexChemistry'] = [exp_chem]
     gas_classes = {'constant': 'ConstantGas', 'twolayer': 'TwoLayerGas', 'twopoint': 'TwoPointGas'}
     mols = list(W.tables.keys())
@@ -410,6 +420,8 @@ def build_par(c, tmp, W):
     for name in c['contribs']:
         if name in ('SimpleClouds', 'ThickClouds') and c['family'] != 'transmission':
             continue
+        if name == 'CIA' and not {'H2', 'He'} <= set(fill):
+            continue                            # the only pair on disk is H2-He
         if name in ('SimpleClouds', 'ThickClouds') and 'SimpleCloudsContribution' in expect:
             continue
         lines.append('    [[%s]]' % name)
